@@ -154,6 +154,13 @@ def run_case(c, rng):
                 e = gx.to_wntr(con.trees, env, memo)
                 if not isinstance(e, ExpressionBase):
                     return False
+                if rng.random() < 0.2 and not hasattr(e, 'value'):
+                    # the expression is also part of a larger one that lives elsewhere (another model, a diagnostic): extending it
+                    # with a foreign variable, or with one of the model's, before it is registered must not change what it is
+                    z = aml.Var(1.5) if rng.random() < 0.5 else rng.choice(env['vars'])
+                    _larger = (e * z) if rng.random() < 0.5 else (z + e)
+                    con.extended_elsewhere = _larger          # keep it alive
+                    c.count('expressions_extended_elsewhere_before_registration')
                 con.obj = aml.Constraint(e)
             else:
                 br, fin = con.trees
